@@ -648,3 +648,11 @@ VARIANTS["C05"] += [
     M("seed-batched-patch", JDP, "                for j in range(self._motif_sizes[i] - ntop % self._motif_sizes[i]):\n                    j = random.randrange(0, len(jds))\n                    t = list(jds[j])\n                    t[i] += 1\n                    jds[j] = tuple(t)",
       "                n_stubs = self._motif_sizes[i] - ntop % self._motif_sizes[i]\n                chosen = random.choices(range(len(jds)), k=n_stubs)\n                jds_plus = {j: jds[j][:i] + (jds[j][i] + 1,) + jds[j][i + 1 :] for j in chosen}\n                for j, t in jds_plus.items():\n                    jds[j] = t", "C05.3"),
 ]
+
+VARIANTS["C06"] += [
+    ME("seed-shared-marginal-cache", [(LM, "    _type: str = JointDegreeType.MARGINAL\n", "    _type: str = JointDegreeType.MARGINAL\n    _marginal_cache: dict = {}\n"),
+        (LM, "    def evaluate_prob_of_joint_degree(self, joint_degree: list) -> float:", "    def marginal_prob(self, i: int, deg: int) -> float:\n        key = (i, deg)\n        if key not in self._marginal_cache:\n            self._marginal_cache[key] = self._arr_fp[i](deg)\n        return self._marginal_cache[key]\n\n    def evaluate_prob_of_joint_degree(self, joint_degree: list) -> float:"),
+        (LM, "            prod *= self._arr_fp[i](deg)", "            prod *= self.marginal_prob(i, deg)")], "C06.1"),
+    RE("helper-method-extracted", [(LM, "    def evaluate_prob_of_joint_degree(self, joint_degree: list) -> float:", "    def marginal_prob(self, i: int, deg: int) -> float:\n        return self._arr_fp[i](deg)\n\n    def evaluate_prob_of_joint_degree(self, joint_degree: list) -> float:"),
+        (LM, "            prod *= self._arr_fp[i](deg)", "            prod *= self.marginal_prob(i, deg)")]),
+]
